@@ -60,7 +60,9 @@ int main(int argc, char** argv) {
       double ml[3], me[3];
       for (int g = 0; g < 3; ++g) { ml[g] = r.LU(100, 3000); me[g] = (hard && g == 1) ? ml[g] * (1 + r.U(-0.03, 0.03)) : r.LU(100, 3000); A.set_ml2(g, g, ml[g] * ml[g]); A.set_me2(g, g, me[g] * me[g]);
          const double q = r.LU(500, 5000); A.set_mq2(g, g, q * q); A.set_mu2(g, g, q * q * 1.1); A.set_md2(g, g, q * q * 0.9); A.set_Ae(g, g, r.U(-1, 1) * 500); A.set_Au(g, g, r.U(-1, 1) * 1000); A.set_Ad(g, g, r.U(-1, 1) * 1000); }
-      const double pert = 0.05, prec = std::pow(10.0, r.U(-10, -4));
+      // the three call forms of the public signature convert_to_onshell(precision = 1e-8, max_iterations = 1000): both arguments, the precision only, none
+      const int callform = static_cast<int>(i % 4 == 3 ? 2 : i % 2);
+      const double pert = 0.05, prec = callform == 2 ? 1e-8 : std::pow(10.0, r.U(-10, -4));
       const double pm[5] = {1 + r.U(-pert, pert), 1 + r.U(-pert, pert), 1 + r.U(-pert, pert), 1 + r.U(-pert, pert), 1 + r.U(-pert, pert)};
       J c; c.d("tb", tb).d("mu", mu).d("M1", m1).d("M2", m2).arr("ml", ml, ml + 3).arr("me", me, me + 3).d("precision", prec).arr("perturbation", pm, pm + 5);
       try { A.calculate_masses(); } catch (const Error&) { ++o.inconclusive; o.count("onshell-point-rejected"); continue; }
@@ -120,11 +122,12 @@ int main(int argc, char** argv) {
       MSSMNoFV_onshell B(A); B.get_problems().clear();
       B.set_Mu(mu * pm[0]); B.set_MassB(m1 * pm[1]); B.set_MassWB(m2 * pm[2]); B.set_ml2(1, 1, ml[1] * ml[1] * pm[3]); B.set_me2(1, 1, me[1] * me[1] * pm[4]);
       hook_me2_residual = -1;
-      try { B.convert_to_onshell(prec, 1000); }
+      try { if (callform == 0) B.convert_to_onshell(prec, 1000); else if (callform == 1) B.convert_to_onshell(prec); else B.convert_to_onshell(); }
       catch (const Error& e) { ++o.inconclusive; o.count(std::string("conversion-rejected(outside the quantifier): ") + e.what()); continue; }   // e.g. a stau tachyon for the perturbed mu
+      c.str("call", callform == 0 ? "convert_to_onshell(precision, 1000)" : (callform == 1 ? "convert_to_onshell(precision)" : "convert_to_onshell()"));
       const double fit_residual = hook_me2_residual;
       ++o.conclusive;
-      const std::string order = std::string(hard ? "near-degenerate-LR|" : "") + std::string(me[1] < ml[1] ? "R-lighter" : "R-heavier") + (std::fabs(m1) < std::min(std::fabs(m2), std::fabs(mu)) ? "|bino-lightest" : "|bino-not-lightest") + "|prec" + vh::decade(prec);
+      const std::string order = std::string(hard ? "near-degenerate-LR|" : "") + std::string(me[1] < ml[1] ? "R-lighter" : "R-heavier") + (std::fabs(m1) < std::min(std::fabs(m2), std::fabs(mu)) ? "|bino-lightest" : "|bino-not-lightest") + "|prec" + vh::decade(prec) + (callform == 0 ? "" : (callform == 1 ? "|one-argument-form" : "|no-argument-form"));
       const bool warn = B.get_problems().have_warning();
       const double amu_b = calculate_amu_1loop(B) + calculate_amu_2loop(B);
       // the report channels agree with each other: have_warning() <=> get_warnings() non-empty <=> one of the two convergence records is set; a record that is set
